@@ -648,6 +648,58 @@ def rand_ops(rng):
     return ops
 
 
+class _Float(float):
+    pass
+
+
+def _strings(v, inside=False):
+    """(strings anywhere in a JSON value, a float occurs inside a container)"""
+    if isinstance(v, _Float):
+        return [], inside
+    if isinstance(v, str):
+        return [v], False
+    if isinstance(v, list):
+        out, bad = [], False
+        for x in v:
+            o, b = _strings(x, True)
+            out += o
+            bad = bad or b
+        return out, bad
+    if isinstance(v, dict):
+        out, bad = [], False
+        for k, x in v.items():
+            o, b = _strings(x, True)
+            out += o
+            bad = bad or b
+        return out, bad
+    return [], False
+
+
+def in_scope(text):
+    """the decidable side conditions of the model (see C15.assumptions): code points < 256, no backslash,
+    no float as a port/link candidate, no candidate link with two ':' (IPv6), no repeated/extra dict keys"""
+    if text is None:
+        return True
+    if any(ord(ch) > 255 or ch == "\\" for ch in text):
+        return False
+    try:
+        v = json.loads(text, parse_float=lambda s: _Float(0), parse_constant=lambda s: _Float(0),
+                       object_pairs_hook=lambda kv: {"__dup__": 1} if len({k for k, _ in kv}) != len(kv)
+                       or (len(kv) > 2 and {k for k, _ in kv} >= {"port", "link"}) else dict(kv))
+    except (ValueError, RecursionError):
+        cands = [text]
+    else:
+        if isinstance(v, dict) and "__dup__" in v:
+            return False
+        cands, bad = _strings(v)
+        if bad or "__dup__" in json.dumps(v):
+            return False
+    for c in cands:
+        if any(part.count(":") >= 2 for part in c.split("/")):
+            return False
+    return True
+
+
 class C15(Suite):
     id = "C15"
     props_module = "Cpppo.Props.C15"
@@ -668,6 +720,12 @@ class C15(Suite):
 
     # -------------------------------------------------------------------------------------------
     def cases(self, tier, rng):
+        for c in self.all_cases(tier, rng):
+            if c["op"] in ("parse", "pl", "main", "json") and not in_scope(c.get("text")):
+                continue
+            yield c
+
+    def all_cases(self, tier, rng):
         quick = tier == "quick"
         yield from self.primitive_cases(tier, rng)
         yield from self.text_cases(tier, rng)
